@@ -165,3 +165,8 @@ Definition run_range_spec (x : xval) : xval :=
       end
   | _ => bad_input
   end.
+
+Definition range_table : list (bytes * (xval -> xval)) :=
+  [ (B "range.serve", run_serve_range);
+    (B "range.parse", run_parse_range);
+    (B "range.spec", run_range_spec) ].
